@@ -119,4 +119,13 @@ impl CKBProtocolContext for Ctx {
     fn protocol_id(&self) -> ProtocolId {
         self.protocol.protocol_id()
     }
+    /// A real tentacle controller whose service never runs: open / close protocol commands are queued and dropped
+    /// (the simulator emulates their effect itself).
+    fn p2p_control(&self) -> Option<&ckb_network::ServiceControl> {
+        static CONTROL: std::sync::OnceLock<ckb_network::ServiceControl> = std::sync::OnceLock::new();
+        Some(CONTROL.get_or_init(|| {
+            let service = Box::leak(Box::new(ckb_network::ServiceBuilder::default().build(())));
+            service.control().clone().into()
+        }))
+    }
 }
